@@ -381,8 +381,47 @@ def attrs_render(case, built=None):
     return pairs, out, ev
 
 
-def attrs_check(case, col=None):
+def _unsafe_twin(case):
+    """Copy of the case in which every SafeString value is an ordinary (untrusted) string; None if there is none."""
+    import copy
+
+    twin = copy.deepcopy(case)
+    n = [0]
+
+    def walk(o):
+        if isinstance(o, dict):
+            if o.get("safe") is True:
+                o["safe"] = False
+                n[0] += 1
+            for v in o.values():
+                walk(v)
+        elif isinstance(o, list):
+            for v in o:
+                walk(v)
+
+    walk(twin)
+    return twin if n[0] else None
+
+
+def attrs_check(case, col=None, _twin=False):
     """-> list[(message, bucket)]; records the case on `col`."""
+    fails = _attrs_check(case, col if not _twin else None)
+    if not fails and not _twin:
+        # history of two renders in one process: the same names/texts first as safe strings, then untrusted. The
+        # untrusted render must be escaped no matter what was rendered before (no state may be shared between renders).
+        twin = _unsafe_twin(case)
+        if twin is not None:
+            try:
+                tf = _attrs_check(twin, None)
+            except OutOfDomain:
+                tf = []
+            if col is not None:
+                col.count("attrs:safe-then-untrusted twin render")
+            fails = [("after rendering the same attributes as safe strings, the untrusted twin: " + m, "twin:" + b) for m, b in tf]
+    return fails
+
+
+def _attrs_check(case, col=None):
     expected, verbatim, info = attrs_model(case)
     labels, nt = attrs_labels(case, info)
     if col is not None:
